@@ -2,7 +2,7 @@
    spec: spec/AnchorPolicy.tla -- the rule trees of the calendar-based, key-based, publications-file, user-publication and general policies
    transcribed as data, the meaning of every leaf rule over an abstract environment (signature shape, user publication, publications file,
    extending allowed, extender behaviour, certificate state), the interpreter's list semantics, and the declarative property (OkOnlyIfBound,
-   FailOnlyOnContradiction, BrokenNeverOk, NoAnchorIsNA, and completeness).  TLC checks the five invariants on all 492 800 (policy, environment)
+   FailOnlyOnContradiction, BrokenNeverOk, NoAnchorIsNA, and completeness).  TLC checks the five invariants on all 591 360 (policy, environment)
    pairs and exports the verdict of each.  Each replayed case is realised with real bytes: reference-built signature, really RSA-signed
    authentication record, really signed publications file listing a certificate with the chosen validity window, a scripted extender on the
    real blocking TCP client answering from an honest calendar database with the chosen deviation.  KSI_SignatureVerifier_verify must return the
@@ -137,6 +137,12 @@ class Case:
             idx = [i for i, (l, _) in enumerate(links) if not l]
             if not idx: raise Unrealisable()
             i = self.rng.choice(idx); links[i] = (False, sigcase.flip(links[i][1]))
+        if b == "extraRightLink":
+            links.append((False, ksi.fake_imprint(1, self.rng.randbytes(8))))
+        if b == "missingRightLink":
+            idx = [i for i, (l, _) in enumerate(links) if not l]
+            if not idx: raise Unrealisable()
+            del links[idx[-1]]
         inp = sigcase.flip(self.agg_root) if b == "otherInput" else self.agg_root
         cal = ksi.cal_chain_tlv(pub, aggr + 1 if b == "otherAggrTime" else aggr, inp, links)
         body = ksi.tlv(0x01, ksi.uint(rid + 1 if b == "otherId" else rid)) + ksi.tlv(0x04, b"") + ksi.tlv(0x12, ksi.uint(self.HEAD + 50)) + cal
@@ -256,7 +262,7 @@ def run(chk, tier, seed):
             chk.violation("crash:verify:exit", "driver exited rc=%s (leak or sanitizer report)\n%s" % (rc, err[-2500:]), {})
     chk.sample(dict(kind="verdicts replayed", by_result=byres)); chk.sample(dict(kind="case", case=chosen[len(chosen) // 2]))
     chk.add(evaluations=n, distinct_nontrivial=n, model_cases=len(cases), case_classes=len(groups), unrealisable=skipped, exhaustive=False,
-            rule="TLC: all 492 800 (policy, environment) pairs against 5 invariants. Replay: %d case(s) of every class (policy x verdict x code x signature shape x extender behaviour x certificate state "
+            rule="TLC: all 591 360 (policy, environment) pairs against 5 invariants. Replay: %d case(s) of every class (policy x verdict x code x signature shape x extender behaviour x certificate state "
                  "x user publication x publications file content)" % per)
     chk.assumptions += ["the publications file is either handed over as the user's file, or fetched through the context's file:// publications URL and PKI-verified (trusted / untrusted by wrong CA, empty store or other constraint value); 'no file' means the download fails",
                         "hash algorithms are SHA-256 throughout: the `algorithm deprecated at publication time` leaves are constant OK",
